@@ -378,7 +378,7 @@ theorem single_model_linker_eq_model {τ : Type} (M : Interp τ V) (π : σ → 
     (hreset : (resetAll L t sel w.user).2 = false)
     (hπreset : π (resetAll L t sel w.user).1 = π w.user)
     (hπstamp : ∀ u s, π (stampSubs L t s sel u) = π u)
-    (h0 : o.offset = 0) (hmm : ¬ o.minIter > o.maxIter)
+    (h0 : o.offset = 0) (hmm : ¬ o.minIter > o.maxIter) (hfeas : Feasible M n t)
     (hb : (M.before o (π w.user) t).2 = false)
     (k0 : Nat) (h1 : 1 ≤ k0) (hk : (k0 : Int) ≤ o.maxIter)
     (hev : ∀ i, i < k0 → (M.eval o (traj M o t (M.before o (π w.user) t).1 i) t (i + 1)).2 = false)
@@ -388,7 +388,7 @@ theorem single_model_linker_eq_model {τ : Type} (M : Interp τ V) (π : σ → 
     (ha : (M.after o (traj M o t (M.before o (π w.user) t).1 k0) t k0).2 = false) :
     ((lSolveT L o n t sel w).1.map π, (lSolveT L o n t sel w).2) =
       ((solveT M o n t (w.map π)).1, LResult.ret true) ∧ (solveT M o n t (w.map π)).2 = .ret true := by
-  have hacc : Accepted o n t := ⟨hmm, Or.inl h0⟩
+  have hacc : Accepted M o n t := ⟨hmm, hfeas, Or.inl h0⟩
   have hseedM : seed M o t (w.map π).user = π w.user := by simp [seed, h0, World.map]
   have hM := C02.solveT_converges M o n t (w.map π) hacc (by rw [hseedM]; exact hb) k0 h1 hk
     (by rw [hseedM]; exact hev) (by rw [hseedM]; exact hfin) (by rw [hseedM]; exact hleast)
